@@ -90,3 +90,53 @@ def filterObs (known : List String) (obs : String) : String :=
   String.intercalate " " (toks.filter (fun t => !isEventTok t || known.contains (eventName t)))
 
 end Cgp.Tok
+
+namespace Cgp.Tok
+open Cgp Cgp.Xdr
+
+/-- split at top-level `;` (brackets nest) -/
+def splitTop (cs : List Char) : List (List Char) :=
+  let rec go (cs : List Char) (depth : Nat) (cur : List Char) (acc : List (List Char)) : List (List Char) :=
+    match cs with
+    | [] => (cur.reverse :: acc).reverse
+    | c :: r =>
+      if c = '[' then go r (depth + 1) (c :: cur) acc
+      else if c = ']' then go r (depth - 1) (c :: cur) acc
+      else if c = ';' ∧ depth = 0 then go r depth [] (cur.reverse :: acc)
+      else go r depth (c :: cur) acc
+  go cs 0 [] []
+
+/-- inverse of `scvTok` for the shapes used as call arguments (fuel bounds the nesting depth) -/
+def parseScv : Nat → List Char → Option ScVal
+  | 0, _ => none
+  | fuel + 1, cs =>
+    match cs with
+    | 'u' :: r => (String.ofList r).toNat?.map .u32
+    | 'U' :: r => (String.ofList r).toNat?.map .u64
+    | 'W' :: r => (String.ofList r).toNat?.map .u128
+    | 'X' :: r => (String.ofList r).toInt?.map (fun i => .i128 (i128OfInt i))
+    | ['b', '1'] => some (.bool true)
+    | ['b', '0'] => some (.bool false)
+    | ['v'] => some .void
+    | 'x' :: r => (ofHex (String.ofList r)).map .bytes
+    | 's' :: r => (ofHex (String.ofList r)).map .str
+    | 'y' :: r => some (.sym (r.map (fun c => UInt8.ofNat c.toNat)))
+    | 'C' :: _ => (parseAddr (String.ofList cs)).map .addr
+    | 'A' :: _ => (parseAddr (String.ofList cs)).map .addr
+    | '[' :: r =>
+      let inner := r.dropLast
+      if inner.isEmpty then some (.vec .nil)
+      else
+        let parts := splitTop inner
+        (parts.foldr (fun p acc => match acc, parseScv fuel p with
+          | some xs, some x => some (x :: xs)
+          | _, _ => none) (some [])).map (fun l => .vec (ScVals.ofList l))
+    | _ => none
+
+/-- argument-list token `[a;b;c]` -/
+def parseArgs (s : String) : Option (List ScVal) :=
+  match parseScv 8 s.toList with
+  | some (.vec vs) => some vs.toList
+  | _ => none
+
+end Cgp.Tok
